@@ -161,6 +161,10 @@ type tag struct {
 }
 
 func runCase(line string, obs *vh.LineWriter, st *vh.Stats) {
+	if f := strings.Fields(line); len(f) > 1 && f[1] == "e2e" {
+		runE2ECase(line, obs, st)
+		return
+	}
 	if f := strings.Fields(line); len(f) > 1 && strings.HasPrefix(f[1], "client=") {
 		runClientCase(line, obs, st)
 		return
@@ -603,7 +607,7 @@ func main() {
 	a := vh.ParseArgs()
 	switch a.Mode {
 	case "gen":
-		n := 1500
+		n := 1000
 		if a.Tier == "thorough" {
 			n = 60000
 		}
@@ -615,6 +619,10 @@ func main() {
 		for i := 0; i < n; i++ {
 			if i%10 == 9 {
 				w.Printf("g%d %s\n", i, genClientCase(r))
+				continue
+			}
+			if (a.Tier == "thorough" && i%300 == 5) || (a.Tier != "thorough" && i%400 == 5) {
+				w.Printf("g%d %s\n", i, genE2ECase(r, i))
 				continue
 			}
 			w.Printf("g%d %s\n", i, genCase(r, i, a.Tier))
